@@ -50,8 +50,15 @@ example : (run Skeleton.current (init [some { req := some 1, res := none }, none
     (fun s => decide (s.dec = .done ∧ s.lostReq = [1] ∧ s.resEnd = some (some .ctx))) = some true := by
   decide
 
+/-- The model allows the decoder's abort both with and without signalling the readers; the progress
+    theorems above use the signalling form `decAbort true`.  The source takes exactly that form: every
+    context-done exit records `decodeErr` and closes `decodeDone` before returning (checked against the
+    regenerated skeleton) — otherwise a reader parked in its adapter would never be woken. -/
+theorem C15_decoder_abort_signals_readers : Skeleton.current.stAbortClosesDone = true := by decide
+
 end Panrpc.St
 
 #print axioms Panrpc.St.cur_handoff_guarded
 #print axioms Panrpc.St.decoder_can_finish
 #print axioms Panrpc.St.decoder_abort_enabled
+#print axioms Panrpc.St.C15_decoder_abort_signals_readers
